@@ -1350,8 +1350,10 @@ func c02ErrIdentities(p *Prog, call ssa.CallInstruction, argOf map[*ssa.Paramete
 		return out
 	}
 	for _, r := range Roots(cc.Value) {
-		if f := fieldOfFuncValue(r); f != "" {
-			out["field:"+f] = true
+		if fs := c02OriginFields(p, r, 0); len(fs) > 0 {
+			for _, f := range fs {
+				out["field:"+f] = true
+			}
 			continue
 		}
 		prm, ok := r.(*ssa.Parameter)
@@ -1380,7 +1382,7 @@ func c02ErrIdentities(p *Prog, call ssa.CallInstruction, argOf map[*ssa.Paramete
 		for _, v := range vals {
 			named := false
 			for _, rr := range Roots(v) {
-				if f := fieldOfFuncValue(rr); f != "" {
+				for _, f := range c02OriginFields(p, rr, 0) {
 					out["field:"+f] = true
 					named = true
 				}
@@ -2292,6 +2294,60 @@ func c02AcquireEdges(G *ssa.Function) []Edge {
 				out = append(out, ne...)
 			}
 		}
+	}
+	return out
+}
+
+// c02OriginFields: the struct field(s) a function value was loaded from.  A
+// field of an unexported struct of the root package that merely carries
+// values copied from other fields (a "copier" struct filled from the options)
+// resolves to those fields.
+func c02OriginFields(p *Prog, v ssa.Value, depth int) []string {
+	var t types.Type
+	fieldIdx := -1
+	switch u := v.(type) {
+	case *ssa.UnOp:
+		if fa, ok := u.X.(*ssa.FieldAddr); ok && u.Op == token.MUL {
+			t, fieldIdx = fa.X.Type(), fa.Field
+		}
+	case *ssa.Field:
+		t, fieldIdx = u.X.Type(), u.Field
+	}
+	name := fieldOfFuncValue(v)
+	if name == "" {
+		return nil
+	}
+	if t == nil || depth > 2 {
+		return []string{name}
+	}
+	if pt, ok := t.Underlying().(*types.Pointer); ok {
+		t = pt.Elem()
+	}
+	n, ok := t.(*types.Named)
+	if !ok || n.Obj().Exported() || n.Obj().Pkg() == nil || n.Obj().Pkg().Path() != Mod {
+		return []string{name}
+	}
+	// every store into this field, anywhere in the root package
+	var out []string
+	stores := 0
+	for _, f := range p.FuncsOfPkg("") {
+		AllInstrs(f, func(in ssa.Instruction) {
+			st, ok := in.(*ssa.Store)
+			if !ok {
+				return
+			}
+			dst, ok := st.Addr.(*ssa.FieldAddr)
+			if !ok || dst.Field != fieldIdx || fieldName(dst.X.Type(), dst.Field) != name {
+				return
+			}
+			stores++
+			for _, r := range Roots(st.Val) {
+				out = append(out, c02OriginFields(p, r, depth+1)...)
+			}
+		})
+	}
+	if stores == 0 || len(out) == 0 {
+		return []string{name}
 	}
 	return out
 }
